@@ -339,7 +339,11 @@ def install(models, front=True):
         if m == "unwrap_or_else": return o.fields[0] if some else ex.call_closure(a[1], [])
         if m == "unwrap_or_default":
             if some: return o.fields[0]
-            raise Unsupported("unwrap_or_default on None")
+            inner = re.match(r"^Option::<(.*)>::unwrap_or_default", c).group(1)
+            if re.match(r"^(std::vec::|alloc::vec::)?Vec<", inner): return VecV([])
+            if re.match(r"^[ui](8|16|32|64|128|size)$", inner): return 0
+            if inner == "bool": return False
+            raise Unsupported("unwrap_or_default on None for " + inner)
         if m == "map": return opt(ex.call_closure(a[1], [o.fields[0]])) if some else o
         if m == "map_or": return ex.call_closure(a[2], [o.fields[0]]) if some else a[1]
         if m == "map_or_else": return ex.call_closure(a[2], [o.fields[0]]) if some else ex.call_closure(a[1], [])
@@ -528,6 +532,29 @@ def install(models, front=True):
         if i >= hi - lo:
             raise Panic(f"index out of bounds: the len is {hi - lo} but the index is {i}")
         return Ref(base, lo + i)
+
+    @R(r"^<(Vec<.*>|\[.*\]) as Index(Mut)?<(std::ops::)?Range(From|To|Full)?(<usize>)?>>::index(_mut)?$")
+    def _index_range(ex, c, a):
+        base, lo, hi = seq(a[0])
+        n = hi - lo
+        r = a[1] if len(a) > 1 else None
+        kind = re.search(r"Range(From|To|Full)?", c).group(1)
+        one = lambda: ex.concretize(r[0] if isinstance(r, list) else r, "slice range bound")
+        if kind == "Full":
+            s0, e0 = 0, n
+        elif kind == "From":
+            s0, e0 = one(), n
+            if s0 > n:
+                raise Panic(f"range start index {s0} out of range for slice of length {n}")
+        elif kind == "To":
+            s0, e0 = 0, one()
+        else:
+            s0, e0 = ex.concretize(r[0], "slice range start"), ex.concretize(r[1], "slice range end")
+            if s0 > e0:
+                raise Panic(f"slice index starts at {s0} but ends at {e0}")
+        if e0 > n:
+            raise Panic(f"range end index {e0} out of range for slice of length {n}")
+        return SliceV(base, lo + s0, lo + e0)
 
     @R(r"^<std::(option|slice|vec)::(Iter|IterMut|IntoIter)<.*> as ExactSizeIterator>::len$")
     def _exact_len(ex, c, a):
